@@ -129,14 +129,23 @@ struct Other:
   0 [+1]  Inner  c
 '''
 
+K = '''[expected_back_ends: "cpp, rust, java, verilog"]
+[(go) namespace: "x"]
+[(swift) namespace: "y"]
+[$default byte_order: "LittleEndian"]
+struct Foo:
+  [(zig) thing: 1]
+  0 [+1]  UInt  x
+'''
+
 FS = {
-    "d1": {"a.emb": A, "s.emb": S1, "b.emb": B, "c.emb": C, "d.emb": D, "f.emb": F, "g.emb": G, "h.emb": H, "n.emb": N},
+    "d1": {"a.emb": A, "s.emb": S1, "b.emb": B, "c.emb": C, "d.emb": D, "f.emb": F, "g.emb": G, "h.emb": H, "n.emb": N, "k.emb": K},
     "d2": {"s.emb": S2},
     "d3": {"s.emb": S1, "a.emb": A},
 }
 WHAT = {"a": "accepted, anonymous bits, imports s", "b": "syntax error", "c": "missing + duplicate import",
         "d": "several dependency cycles", "f": "self import", "g": "lexical error", "h": "back-end error",
-        "n": "ambiguous names", "s": "shared import"}
+        "n": "ambiguous names", "s": "shared import", "k": "attribute errors listing sets of names"}
 
 
 def build_fs(root):
